@@ -5,6 +5,7 @@ sys.path.insert(0, os.path.dirname(os.path.abspath(__file__)))
 import lib
 if os.environ.get('DEVRUN_TREE'):   # development only: triage a patched scratch worktree without touching /repo (bin/check never sets this)
     sys.path.insert(0, os.path.join(os.environ['DEVRUN_TREE'], 'python'))
+    lib.DEV_TREE = os.environ['DEVRUN_TREE']
 import check, registry
 fam = registry.FAMILIES[sys.argv[1]]
 tier = sys.argv[2] if len(sys.argv) > 2 else 'quick'
